@@ -38,6 +38,7 @@ type c14sEnv struct {
 	reserved bool
 	closed   bool // lease-closed was delivered
 	failing  bool // native: deploys fail (the schedule lets a manager finish without a lease-closed)
+	sawDone  bool // native: the schedule let a manager finish
 	events   chan pubsub.Event
 	live     []*deploymentManager // engine model: managers that have not finished
 	torn     map[*deploymentManager]bool
@@ -145,6 +146,7 @@ func (e *c14sEnv) oracle(s *service) {
 	if !verif_Symbolic() {
 		_, err := s.inventory.lookup(e.lid.OrderID(), &e.group)
 		reserved = err == nil
+		finished = e.sawDone
 	} else {
 		verif_Assert(managers == len(e.live), "C14 the service tracks exactly the managers that have not finished")
 		for _, op := range e.oplog {
@@ -255,6 +257,7 @@ func c14service(steps int) {
 		case "event":
 			_ = bus.Publish(e.event(val))
 		case "manager-done":
+			e.sawDone = true
 			select {
 			case e.gate <- struct{}{}: // let the held teardown (if any) complete
 			case <-time.After(300 * time.Millisecond):
